@@ -22,7 +22,7 @@ CONFIG = dict(
     driver="modeld_c15",
     driver_root="Cell2v.Driver.C15",
     audit="Audit/C15.lean",
-    required_theorems=["shipped_source_facts", "post_exactly_once", "per_poster_fifo", "panic_does_not_block_later",
+    required_theorems=["shipped_source_facts", "shipped_sound", "shipped_scheduler_correct", "post_exactly_once", "per_poster_fifo", "panic_does_not_block_later",
                        "post_after_stop_is_harmless", "overflow_path_breaks_fifo", "tasks_in_order", "args_threaded",
                        "error_jumps_to_final", "final_at_most_once", "final_exactly_once", "everything_via_post"],
     harness_pkg="./c15",
@@ -30,9 +30,10 @@ CONFIG = dict(
     reset_prefix="reset",
     runs={
         "quick": [dict(name="main", env={"VERIF_N": "1200"}, timeout=120)],
-        "thorough": [dict(name="main", env={"VERIF_N": "1500"}, timeout=600),
-                     dict(name="seed2", env={"VERIF_N": "1000"}, seed_offset=1000, timeout=600),
-                     dict(name="seed3", env={"VERIF_N": "1000"}, seed_offset=2000, timeout=600)],
+        "thorough": [dict(name="main", env={"VERIF_N": "6000"}, timeout=600),
+                     dict(name="seed2", env={"VERIF_N": "5000"}, seed_offset=1000, timeout=600),
+                     dict(name="seed3", env={"VERIF_N": "5000"}, seed_offset=2000, timeout=600),
+                     dict(name="exhaustive", test="TestExhaustive", timeout=600)],
     },
     trivial=r"^(-|ok|ok cap=\d+|bad-op|exec=- .*)?$",
     rule="one PRNG (VERIF_SEED). Scheduler cases: real sche.Sche consumed by its own Handler() or by a runservice.RunService, 1-8 poster goroutines "
